@@ -233,12 +233,28 @@ fn coordinate(prop: &dyn Prop, tier: Tier, jobs: Option<usize>, cap: Duration) -
             return EXIT_MACHINERY;
         }
         // A violation is only reported if it replays identically twice in fresh processes.
+        let reproduces = |r: &Option<Vec<String>>| -> bool {
+            match r {
+                Some(sigs) => sigs.iter().any(|s| *s == v.signature) || (v.clause.ends_with("abort") && *sigs == vec!["<died>".to_string()]),
+                None => false,
+            }
+        };
         let a = replay_in_child(prop, &path);
         let b = replay_in_child(prop, &path);
-        match (a, b) {
-            (Some(a), Some(b)) if a == b && a.iter().any(|s| *s == v.signature) => {}
-            (Some(a), Some(b)) if a == b && a == vec!["<died>".to_string()] && v.clause.ends_with("abort") => {}
-            (a, b) => {
+        let ok = match (reproduces(&a), reproduces(&b)) {
+            (true, true) => true,
+            (false, false) => false,
+            // The implementation itself may be nondeterministic under the fault being shown (e.g. it reads
+            // uninitialised padding): a third replay decides by majority.
+            _ => {
+                let c = replay_in_child(prop, &path);
+                eprintln!("note: replays of {} disagree ({:?} vs {:?}); third replay: {:?}", v.signature, a, b, c);
+                reproduces(&c)
+            }
+        };
+        match (ok, a, b) {
+            (true, _, _) => {}
+            (false, a, b) => {
                 eprintln!(
                     "MACHINERY: violation {} does not replay deterministically: first {:?}, second {:?} ({})",
                     v.signature,
@@ -250,9 +266,12 @@ fn coordinate(prop: &dyn Prop, tier: Tier, jobs: Option<usize>, cap: Duration) -
             }
         }
         if let Some(f) = findings::matching(&known, v) {
-            let line = format!("KNOWN-FINDING: property={} {} [{}]", v.property, f.what, v.signature);
-            println!("{line}");
-            known_lines.push(line);
+            // One line per listed finding, however many configurations / schedules exhibit it.
+            let line = format!("KNOWN-FINDING: property={} {}", v.property, f.what);
+            if !known_lines.contains(&line) {
+                println!("{line}");
+                known_lines.push(line);
+            }
         } else {
             alarm += 1;
             println!("DETAIL property={} clause={} :: {}", v.property, v.clause, v.message);
